@@ -479,9 +479,8 @@ func genDStarHeur(g *vlib.G) {
 	// hPairs with costs in {1,2} (thorough {1,2,5}), start 0, goal 3; quick:
 	// exact0 at depth 2, exact0/hops0 alternating at depth 3; thorough: both;
 	// every increase-only history without batches to depth 2 with raises to
-	// 2, 3, 4, 5, +Inf, and to depth 3 with raises to 2, 5, +Inf (quick: depth
-	// 3 only for the worlds with index = 1 mod 4). One case per world,
-	// heuristic and depth.
+	// 2, 3, 4, 5, +Inf, and, for the worlds with index = 1 mod 4, to depth 3
+	// with raises to 2, 5, +Inf. One case per world, heuristic and depth.
 	alpha := []float64{1, 2}
 	if thorough {
 		alpha = []float64{1, 2, 5}
@@ -503,25 +502,19 @@ func genDStarHeur(g *vlib.G) {
 				hExplore(g, e, fmt.Sprintf("%s h=%s depth=2 fine", w.name, hKindNames[kind]), 2, 0, false, hRaiseFine)
 			}
 			// depth 3 with {2,5,+Inf}
-			if thorough || (idx%4 == 1 && kind == idx/4%2) {
+			if idx%4 == 1 && (thorough || kind == idx/4%2) {
 				hExplore(g, e, fmt.Sprintf("%s h=%s depth=3", w.name, hKindNames[kind]), 3, 0, false, hRaise)
 			}
 		}
 		return !g.Stopped()
 	})
 	// (2) Hand-written 4- and 5-node worlds with batches: depth 3 (quick),
-	// depth 4 (thorough; depth 5 on the first two).
+	// depth 4 (thorough).
 	nw := vlib.Pick(g, 8, len(hWorlds))
 	for wi := 0; wi < nw; wi++ {
 		w := &hWorlds[wi]
 		for kind := hExact0; kind <= hHops0; kind++ {
-			depth := 3
-			if thorough {
-				depth = 4
-				if wi < 2 {
-					depth = 5
-				}
-			}
+			depth := vlib.Pick(g, 3, 4)
 			idk := (wi + kind) % 3
 			e := newHEnv(w, idk, wi%3, kind, nil)
 			prefixLen := 1
